@@ -35,6 +35,10 @@ CONSTANTS N,            \* chain height bound
           Detector,     \* TRUE: the detector's ticks are scheduled
           RetryLimit,   \* MaxRetryCountBlockHashMismatch
           AtomicRemove, \* TRUE: nothing is scheduled between the ack and the detector's range removal
+          RemoveByHash, \* TRUE (a repair of F6 that TLC refutes, EVMSyncF6byhash.cfg): after the ack the detector removes exactly
+                        \* the entries it compared (number and hash of its snapshot) - a block re-tracked with the same hash is lost
+          LockedRemove, \* TRUE (the repair of F6): the subscriber's tracked list stays locked from the moment the subscriber took the
+                        \* notification until the range is removed, so AddBlockToTrack waits for the removal
           Contents,     \* subset of {0,1}: possible contents of a new block
           FinLag,       \* finalization keeps at least this many blocks unfinalized (0 in exhaustive runs; biases random walks)
           NoIdle,       \* TRUE (random walks): polls without news and ticks without tracked blocks are not scheduled
@@ -200,7 +204,7 @@ Deliver ==
 
 (* AddBlockToTrack (only for blocks not flagged finalized): memory first, then the DB row *)
 DrvTrack ==
-  /\ Free /\ drv.pc = "track"
+  /\ Free /\ drv.pc = "track" /\ ~(LockedRemove /\ rd.pc \in {"ackwait", "acked"})
   /\ LET b == drv.cur IN
      IF mem[b.n] = b.v THEN UNCHANGED <<mem, db>>
      ELSE mem' = [mem EXCEPT ![b.n] = b.v] /\ db' = [db EXCEPT ![b.n] = Append(@, b.v)]
@@ -281,10 +285,12 @@ RdCmp(fl) ==
   /\ Log("rdcmp", 0, <<>>, fl)
 
 (* after the ack: DELETE the range [from, to] of the snapshot from the DB, then from memory *)
+SnapVer(n) == LET S == {i \in DOMAIN rd.snap : rd.snap[i][1] = n} IN IF S = {} THEN -2 ELSE rd.snap[CHOOSE i \in S : TRUE][2]
 RdRemove ==
   /\ rd.pc = "acked"
-  /\ mem' = [n \in 1..N |-> IF n >= rd.from /\ n <= rd.to THEN -1 ELSE mem[n]]
-  /\ db'  = [n \in 1..N |-> IF n >= rd.from /\ n <= rd.to THEN <<>> ELSE db[n]]
+  /\ mem' = [n \in 1..N |-> IF n >= rd.from /\ n <= rd.to /\ (~RemoveByHash \/ mem[n] = SnapVer(n)) THEN -1 ELSE mem[n]]
+  /\ db'  = [n \in 1..N |-> IF n >= rd.from /\ n <= rd.to
+                            THEN (IF RemoveByHash THEN SelectSeq(db[n], LAMBDA v : v # SnapVer(n)) ELSE <<>>) ELSE db[n]]
   /\ rd' = IdleRd
   /\ UNCHANGED <<chunk, tag, tip, fin, nforks, fp, H, dl, ch, drv, store, fails, pfails, restarts, lastReorg>>
   /\ Log("ack", 0, <<>>, FALSE)
